@@ -65,11 +65,17 @@ def run(ctx):
     judge(ctx, cases, nontrivial, hc.Explainer(ctx, "req", 1, 1))
     ctx.cov["designs"] = len(pl.designs)
     ctx.cov["designs_failed"] = len(pl.failed)
+    # two attributes in the same non-body location (two cookies, two headers, two query parameters)
+    allv = hc.gen_vectors(ctx, "req", 1, 1, label="Gen req 1x1 (for pairs)")
+    pairs = hc.combine_cases(ctx, allv, 80 if quick else 1500, ctx.seed, mode="sameloc")
+    casesp, plp = hc.run_family(ctx, "req", pairs)
+    judge(ctx, casesp, nontrivial, hc.Explainer(ctx, "req", 2, 1))
+    ctx.cov["same_location_pairs"] = len(casesp)
     if ctx.selftest or not quick:
         hc.trace_selftest(ctx, cases)
     if not quick:
         # two-attribute methods: too many to enumerate, seeded pairs of the enumerated single-attribute cases, judged by TLC (Cases_HTTPTransport)
-        uniq = hc.combine_cases(ctx, hc.gen_vectors(ctx, "req", 1, 1, label="Gen req 1x1 (for pairs)"), 4000, ctx.seed)
+        uniq = hc.combine_cases(ctx, allv, 4000, ctx.seed)
         cases2, pl2 = hc.run_family(ctx, "req", uniq)
         judge(ctx, cases2, nontrivial, hc.Explainer(ctx, "req", 2, 1))
         ctx.cov["two_attribute_cases"] = len(cases2)
